@@ -476,7 +476,7 @@ func ruleJSONOP(c *Ctx, r *Report) {
 // JSON-PRINT (C12): the printed form of a leaf does not depend on its kind.
 func ruleJSONPRINT(c *Ctx, r *Report) {
 	const rule = "JSON-PRINT"
-	r.doc(rule, "a renderer registered for more than one of the leaf kinds Literal/Wild/Regexp does not branch on the node's operator when printing query text (verbose = false): the decoder infers a leaf's kind from its text, so a quoted pattern is a Literal in the parsed tree and a Wild in the decoded one, and both must print identically")
+	r.doc(rule, "a renderer registered for more than one of the leaf kinds Literal/Wild/Regexp does not branch on the node's operator when printing query text (verbose = false): the decoder infers a leaf's kind from its text, so a quoted pattern is a Literal in the parsed tree and a Wild in the decoded one, and both must print identically; a numeric payload is printed by the generic %v only — the fuzzy and boost productions read their number back through the operand's printed form, so a rounding or padded print changes the number in the tree")
 	rops := c.rendererOps()
 	n := 0
 	for fn, ops := range rops {
